@@ -101,6 +101,19 @@ func (obj HashTable) Key(key Object) Object {
 	return key
 }
 
+// Hashable returns true if key can be a key of a hash-table. Objects that are
+// Go slices or maps (list, octets, hash-table) can not be used as Go map keys
+// and, since the test is always eql, could never be found again anyway.
+func (obj HashTable) Hashable(key Object) bool {
+	switch tk := key.(type) {
+	case List, Octets, HashTable, Values:
+		return false
+	case Tail:
+		return obj.Hashable(tk.Value)
+	}
+	return true
+}
+
 func sameNumber(x, y Object) (same bool) {
 	switch tx := x.(type) {
 	case *Bignum:
